@@ -353,6 +353,9 @@ package transport
 //@   gosafe
 //@   at `c.exec.CreateOperationContext(ctx, params)` requires params != nil
 //@   callsite DispatchOperation: requires err == nil
+// one operation per id at a time: registering a cancel function must not replace the one of an operation that is
+// still running (it could no longer be stopped, and its results and completion would interleave with the new one's)
+//@   at `assign c.active[*]` requires @C11 c.active[idx] == nil
 
 // ---------------------------------------------------------------- C09: status codes and content negotiation
 //@ func statusFor [C09]
